@@ -570,7 +570,7 @@ func ruleDecoderReps(c *Ctx, r *Report, prefix string) {
 					}
 				}
 			}
-			if cal.Name() == "decodeLiteral" {
+			if cal.Name() == "decodeLiteral" || cal.Name() == "Decode" && strings.Contains(FnName(cal), "literalCodec") {
 				s.lens = append(s.lens, "literal")
 			}
 		case *ssa.MakeInterface:
@@ -611,7 +611,7 @@ func ruleDecoderReps(c *Ctx, r *Report, prefix string) {
 		}
 		// distance of the returned match
 		dist := "-"
-		if mi, ok := p.Resolve(ret.Results[0]).(*ssa.MakeInterface); ok {
+		if mi, ok := p.Resolve(ret.Results[0]).(*ssa.MakeInterface); ok && strings.HasSuffix(mi.X.Type().String(), "lzma.match") {
 			dist = matchDistanceSym(mi.X, s.sym, p)
 		}
 		key := strings.Join(s.bits, ",")
